@@ -8,7 +8,8 @@ and the model of markdown_renderer.py (lean/Mistletoe/Model/Markdown.lean), all 
     the token lists the working tree installs; `C09_prose_idempotent_partial`, `C09_prose_same_meaning_partial`;
   * `C09_quoted_prose_exact_partial` / `_markdown`: the same inside k nested block quotes (via C04);
   * `C09_blocks_exact_partial`, `C09_blocks_roundtrip_markdown`: prose paragraphs, ATX headings and thematic breaks inside k
-    nested block quotes: exact reproduction, idempotence, same document / same HTML / same definitions as the original.
+    nested block quotes: exact reproduction, idempotence, same document / same HTML / same definitions as the original;
+  * Props/C09_Code.lean (`C09_code_blocks_roundtrip_partial`): the same with fenced and indented code blocks in normal form.
 Units (correspondence of the Markdown renderer MODEL with markdown_renderer.py, byte for byte): `md.render` on all 652 spec
 examples under four option sets, `md.render.gen` on generated documents, `md.render.tree` on parsed trees with perturbed
 attributes (the renderer as a function on trees, beyond what the parser produces); `c09.theorem`: random documents of the
@@ -30,7 +31,7 @@ import impl
 import md_units
 
 ID = 'C09'
-EXTRA_MODULES = ['Mistletoe.Proofs.MdRound', 'Mistletoe.Proofs.MdRoundBlocks', 'propsdriver']
+EXTRA_MODULES = ['Mistletoe.Proofs.MdRound', 'Mistletoe.Proofs.MdRoundBlocks', 'Mistletoe.Proofs.MdRoundCode', 'propsdriver']
 RULE = ('documents from the tree generator (every block and inline construct, canonical and non-canonical spellings, nesting '
         'to depth 4; no character references, no escapes in destinations/titles, continuation lines indented < 4) and the 652 '
         'spec examples, x normalize_whitespace in {False, True}. Distinct by (document, option); non-trivial when the '
@@ -38,9 +39,9 @@ RULE = ('documents from the tree generator (every block and inline construct, ca
 TRUSTED = ['meaning is compared as HtmlRenderer output plus Document.footnotes of the two texts']
 ASSUMPTIONS = ['the generated domain excludes the input classes the property records as known findings; on the spec corpus '
                'the failing examples are listed individually in known_findings.json']
-PARTIAL = ['proved for the fragment: inert prose paragraphs, ATX headings `#..# text` and thematic breaks in the renderer\'s normal form, '
+PARTIAL = ['proved for the fragment: inert prose paragraphs, ATX headings `#..# text`, thematic breaks, fenced and indented code blocks in the renderer\'s normal form, '
            'separated by single empty lines, inside any number of block quotes, no line limit (exact reproduction, idempotence, same '
-           'meaning). Every other construct of the property (setext headings, code blocks, lists, tables, HTML blocks, link '
+           'meaning). Every other construct of the property (setext headings, lists, tables, HTML blocks, link '
            'definitions, every inline construct other than text and soft breaks) and every document NOT in normal form (clause 1 '
            'and 2 on arbitrary spellings) is decided by the round-trip exploration on the implementation; the Markdown renderer '
            'model itself is tied to the code on all of those by the md.render units']
@@ -133,6 +134,21 @@ def frag_block(rng):
     return {'k': 'hr', 'c': rng.choice('*-_')}
 
 
+CODE_LINES = ['x = 1\n', '\n', '# not a heading\n', '    indented\n', '> q\n', '- item\n', '*a*\n', '```\n', '~~~\n', '  ````\n', 'a\tb\n', '   \n',
+              '[x]: /y\n', 'ü é\n', '<div>\n', '````\n']
+
+
+def frag_block2(rng):
+    r = rng.random()
+    if r < 0.4:
+        return frag_block(rng)
+    if r < 0.8:
+        ch = rng.choice('`~')
+        return {'k': 'fence', 'delim': ch * rng.randint(3, 5), 'info': rng.choice(['', '', 'py', ' sh x=1', 'a b  ', '~x', 'c`d']),
+                'body': [rng.choice(CODE_LINES) for _ in range(rng.randint(0, 4))]}
+    return {'k': 'icode', 'lines': ['    ' + rng.choice(['code', '  deeper', 'x = 1', '[a]: /b', '# h', '- i']) + '\n' for _ in range(rng.randint(1, 3))]}
+
+
 def units(ctx):
     import gen_docs as gd
     spec = [e['markdown'] for e in gd.spec_examples()]
@@ -160,6 +176,25 @@ def units(ctx):
         ctx.compare('c09.theorem', {'text': text, 'normalize_whitespace': nw}, {'md': text, 'same_meaning': True}, real,
                     kind='depth%d' % d['depth'])
     ctx.notes.append('of %d generated documents of the fragment %d satisfy the hypotheses of C09_blocks_roundtrip_markdown' % (len(docs), n_ok))
+    # the fragment with code blocks (Props/C09_Code.lean)
+    docs = [{'op': 'c09.fragment2', 'blocks': [frag_block2(rng) for _ in range(rng.randint(1, 4))], 'depth': rng.choice([0, 0, 0, 1, 2])}
+            for _ in range(ctx.budget(2500, 25000))]
+    res = common.driver_batch(docs, binary=common.PROPS_DRIVER)
+    n_ok = 0
+    for i, (d, r) in enumerate(zip(docs, res)):
+        if not (isinstance(r, dict) and r.get('ok')):
+            continue
+        n_ok += 1
+        text = r['text']
+        nw = bool(i % 2)
+        try:
+            out = md(text, nw)
+            real = {'md': out, 'same_meaning': meaning(out) == meaning(text)}
+        except Exception as e:
+            real = {'raises': type(e).__name__}
+        ctx.compare('c09.theorem.code', {'text': text, 'normalize_whitespace': nw}, {'md': text, 'same_meaning': True}, real,
+                    kind='depth%d' % d['depth'])
+    ctx.notes.append('of %d generated documents with code blocks %d satisfy the hypotheses of C09_code_blocks_roundtrip_partial' % (len(docs), n_ok))
 
 
 
